@@ -486,8 +486,10 @@ def write_evidence(pid, tier, seed, spec, results, ir_files, validated, nviol, i
         wall_s=round(wall, 1),
         violations=nviol,
     )
-    os.makedirs(os.path.join(ROOT, 'evidence'), exist_ok=True)
-    json.dump(ev, open(os.path.join(ROOT, 'evidence', pid + '.json'), 'w'), indent=1, default=str)
+    # runs against a deliberately modified /repo (bin/matrix.py) must not overwrite the evidence of the real tree
+    evdir = os.environ.get('VERIF_EVIDENCE_DIR') or os.path.join(ROOT, 'evidence')
+    os.makedirs(evdir, exist_ok=True)
+    json.dump(ev, open(os.path.join(evdir, pid + '.json'), 'w'), indent=1, default=str)
 
 
 def setup():
